@@ -196,6 +196,31 @@ def oracle(ctx, widen=1):
                                   {"constraints": cons, "hkl": list(hkl), "relation": name, "rot": rot, "scale": sc, "n": nn, "eps": eps},
                                   {"kind": "symmetry", "relation": name, "mode": ",".join(tr)})
     ctx.stream("oracle:metamorphic", cases * 4, len(solved), base_requests=cases)
+    # (c) on aligned and degenerate set-ups with constraint values at exactly 0 / 90 / 180: a whole turn added to one value changes nothing
+    from diffcalc.hkl.calc import HklCalculation
+    from diffcalc.hkl.constraints import Constraints
+    reqs = PL.aligned_requests(ctx.rng, ctx.scale(1, 6) * widen) + PL.degenerate_requests(ctx.rng, ctx.scale(80, 2000) * widen)
+    n2, solved2 = 0, set()
+    for ub, vals, hkl, wl, tag in reqs:
+        nm0 = [k for k in vals if vals[k] is not True]
+        if not nm0:
+            continue
+        r0 = S.run_impl("full", HklCalculation(ub, Constraints(vals)), hkl, wl)
+        base2 = [p for p, _ in r0[1]] if r0[0] == "ok" else r0[0]
+        nm = ctx.rng.choice(nm0)
+        v2 = dict(vals); v2[nm] = v2[nm] + 360.0 * ctx.rng.choice([1, -1])
+        r1 = S.run_impl("full", HklCalculation(ub, Constraints(v2)), hkl, wl)
+        got2 = [p for p, _ in r1[1]] if r1[0] == "ok" else r1[0]
+        n2 += 1
+        if not isinstance(base2, str):
+            solved2.add(tuple(sorted(vals)))
+        if not same(got2, base2, 0.0, 1e-4):
+            if not PL.stable(lambda v: HklCalculation(ub, Constraints(v)), vals, hkl, wl, "full"):
+                continue
+            ctx.violation(f"mode { {k: (v if v is True else round(v, 4)) for k, v in vals.items()} } hkl={tuple(round(x, 4) for x in hkl)} [{tag}]: 360 deg added to {nm} changes the solutions: "
+                          f"{got2 if isinstance(got2, str) else [tuple(round(x, 3) for x in p) for p in got2][:3]} vs {base2 if isinstance(base2, str) else [tuple(round(x, 3) for x in p) for p in base2][:3]}",
+                          {"constraints": vals, "hkl": list(hkl), "relation": "c-aligned", "name": nm}, {"kind": "symmetry", "relation": "c-aligned", "mode": ",".join(sorted(vals))})
+    ctx.stream("oracle:whole-turn-on-aligned-requests", n2, len(solved2))
 
 
 def replay(ctx, data):
